@@ -2,6 +2,7 @@ import Upf.Proofs.Lockset
 import Upf.Proofs.Tab
 import Upf.Model.LockFacts
 import Upf.Proofs.Local
+import Upf.Proofs.AnyHistory
 /-!
 # C11 — concurrent associations do not interfere
 
@@ -84,5 +85,13 @@ theorem other_associations_store_untouched (cfg : Agent.Cfg) (w : Agent.World) (
     (Agent.shutdownConn cfg w a).conn a' = w.conn a' :=
   ⟨fun l r => Agent.establish_local cfg w a a' l r h, fun r => Agent.modify_local cfg w a a' r h,
    fun s => Agent.delete_local cfg w a a' s h, fun s => Agent.report_local cfg w a a' s h, Agent.shutdown_local cfg w a a' h⟩
+
+/-- lifted to histories: whatever the OTHER associations send, in any number and order (establishments, modifications with any mix
+of IEs, deletions, PFD updates, reports, their own setup and ending — each accepted or refused), the record of association `a'` is
+what it was. Serial histories only: that concurrent handlers behave like some serial order is what the lock facts and the
+race-detector runs are for. -/
+theorem foreign_requests_never_touch_an_association (cfg : Agent.Cfg) (a' : Nat) (qs : List Agent.Req) (w : Agent.World)
+    (h : ∀ q ∈ qs, a' ≠ q.by) : (qs.foldl (Agent.stepReq cfg) w).conn a' = w.conn a' :=
+  Agent.foreign_history_keeps_record cfg a' qs w h
 
 end C11
